@@ -153,6 +153,10 @@ def _case(draw):
     full = draw(st.sampled_from([False] * 11 + [True]))
     fresh = draw(st.booleans())
     prev = draw(st.one_of(st.none(), st.none(), st.none(), _safe_section(1)))
+    if prev is not None and not full:
+        # two reports from one Rst object: figures matter more often (the earlier report's
+        # figures must still be written although the Rst object was reused in between)
+        full = draw(st.sampled_from([False, False, True]))
     return {'root': root, 'full': full, 'fresh': fresh, 'prev': prev}
 
 
@@ -429,7 +433,8 @@ def run_case(case):
         full, table = FullRepresenter(), representer
 
         def representer(result, verbosity):
-            return (full if result.test.name in ('res0', 'res1', 'res2') else table)(result, verbosity)
+            return (full if result.test.name in ('res0', 'res1', 'res2', f'res{PREV_BASE}',
+                                                 f'res{PREV_BASE + 1}') else table)(result, verbosity)
     tmp = tempfile.mkdtemp(prefix='c20-', dir='/dev/shm' if os.path.isdir('/dev/shm') else '/var/tmp')
     try:
         # existing empty directory, or a path of which the last two levels do not exist yet
